@@ -135,7 +135,7 @@ Qed.
 Ltac pick_after ps0 :=
   rewrite <- ?app_assoc; simpl;
   match goal with
-  | |- exists outp, Ok (ps0 ++ ?L) = _ /\ _ => exists L; split; [reflexivity|]; split; [|split; [wf_tac; fail|simpl; lia]]
+  | |- exists outp, Ok (ps0 ++ ?L) = _ /\ _ => exists L; split; [reflexivity|]; split; [|split; [wf_tac; fail|split; [simpl; lia|discriminate]]]
   end.
 Ltac law_a := apply eq_sym; first [apply L_atc | apply L_act | apply L_ac | apply L_at]; auto; fail.
 Ltac eqv_after :=
@@ -155,14 +155,14 @@ Definition post_ok (post : list mitem) : Prop :=
 Lemma after_spec (pre : list mitem) g c t (post ps0 : list mitem) g' :
   post_ok post -> (0 <= c < Z.of_nat n)%Z -> (0 <= t < Z.of_nat n)%Z -> c <> t ->
   exists outp, snippet_after (pre ++ (M4 g, [c; t]) :: post) (length pre) (ps0 ++ [(M4 g', [c; t])]) = Ok (ps0 ++ outp) /\
-    equiv n outp ((M4 g', [c; t]) :: post) /\ Forall (wfn n) outp /\ length outp <= S (length post).
+    equiv n outp ((M4 g', [c; t]) :: post) /\ Forall (wfn n) outp /\ length outp <= S (length post) /\ outp <> [].
 Proof.
   intros Hpost Hc Ht Hct.
   unfold Optimizer.snippet_after. rewrite py_last_app, removelast_last, app_length.
   destruct Hpost as [->|[(X & -> & HX)|(X & Y & -> & HX & HY & Hne)]]; simpl length.
   - replace (Nat.leb (length pre + 3) (length pre + 1)) with false by (symmetry; apply Nat.leb_gt; lia).
     replace (Nat.leb (length pre + 2) (length pre + 1)) with false by (symmetry; apply Nat.leb_gt; lia).
-    exists [(M4 g', [c; t])]. split; [reflexivity|]. split; [apply equiv_refl|]. split; [wf_tac|simpl; lia].
+    exists [(M4 g', [c; t])]. split; [reflexivity|]. split; [apply equiv_refl|]. split; [wf_tac|split; [simpl; lia|discriminate]].
   - destruct HX as (x & qx & -> & Hqx).
     replace (Nat.leb (length pre + 3) (length pre + 2)) with false by (symmetry; apply Nat.leb_gt; lia).
     rewrite Nat.leb_refl.
@@ -200,7 +200,7 @@ Lemma process_snippet_spec (pre : list mitem) g c t (post : list mitem) :
   Forall is1 pre -> post_ok post -> (0 <= c < Z.of_nat n)%Z -> (0 <= t < Z.of_nat n)%Z -> c <> t ->
   exists out, process_snippet (pre ++ (M4 g, [c; t]) :: post) = Ok out /\
     equiv n out (pre ++ (M4 g, [c; t]) :: post) /\ Forall (wfn n) out /\
-    length out <= length (pre ++ (M4 g, [c; t]) :: post).
+    length out <= length (pre ++ (M4 g, [c; t]) :: post) /\ out <> [].
 Proof.
   intros Hpre Hpost Hc Ht Hct.
   unfold Optimizer.process_snippet.
@@ -210,8 +210,8 @@ Proof.
   rewrite Hloc.
   destruct (before_spec pre g c t post Hpre Hc Ht Hct) as (p' & g' & E1 & Q1 & W1 & L1).
   rewrite E1. simpl.
-  destruct (after_spec pre g c t post p' g' Hpost Hc Ht Hct) as (outp & E2 & Q2 & W2 & L2).
-  rewrite E2. exists (p' ++ outp). split; [reflexivity|]. split; [|split].
+  destruct (after_spec pre g c t post p' g' Hpost Hc Ht Hct) as (outp & E2 & Q2 & W2 & L2 & N2).
+  rewrite E2. exists (p' ++ outp). split; [reflexivity|]. split; [|split; [|split]].
   - apply (eq_trans _ (p' ++ (M4 g', [c; t]) :: post)).
     + apply eq_app_l. exact Q2.
     + change (p' ++ (M4 g', [c; t]) :: post) with (p' ++ [(M4 g', [c; t])] ++ post).
@@ -219,6 +219,7 @@ Proof.
       rewrite !app_assoc. apply eq_app_r. exact Q1.
   - apply Forall_app. auto.
   - rewrite !app_length. simpl. lia.
+  - intros E. apply app_eq_nil in E. tauto.
 Qed.
 
 (* ---------------------------------------------------------------- the snippet loop *)
@@ -302,13 +303,13 @@ Proof.
 Qed.
 
 Lemma opt2_loop_spec : forall k (gl : list mitem), k <= count2 gl -> Forall (wfn n) gl -> noadj gl ->
-  exists out, opt2_loop mat mmul mkron mid2 k gl = Ok out /\ equiv n out gl /\ Forall (wfn n) out /\ length out <= length gl.
+  exists out, opt2_loop mat mmul mkron mid2 k gl = Ok out /\ equiv n out gl /\ Forall (wfn n) out /\ length out <= length gl /\ (gl <> [] -> out <> []).
 Proof.
   induction k as [|k IH]; intros gl Hk Hwf Hna.
   - exists gl. simpl. repeat split; auto; try apply equiv_refl.
   - destruct (take_snippet_spec gl Hwf) as (pre & g & c & t & post & rest & Et & Egl & Hpre & Hpost & Hc & Ht & Hct & Hcnt); auto; try lia.
     cbn [opt2_loop]. rewrite Et. simpl rbind.
-    destruct (process_snippet_spec pre g c t post Hpre Hpost Hc Ht Hct) as (p & Ep & Qp & Wp & Lp).
+    destruct (process_snippet_spec pre g c t post Hpre Hpost Hc Ht Hct) as (p & Ep & Qp & Wp & Lp & Np).
     rewrite Ep. simpl rbind.
     assert (Hsk : skipn (length (pre ++ (M4 g, [c; t]) :: post)) gl = rest).
     { rewrite Egl at 1. replace (length (pre ++ (M4 g, [c; t]) :: post)) with (length (pre ++ (M4 g, [c; t]) :: post) + 0) by lia.
@@ -316,15 +317,16 @@ Proof.
     rewrite Hsk.
     assert (Wr : Forall (wfn n) rest) by (rewrite Egl in Hwf; apply Forall_app in Hwf; tauto).
     assert (Nr : noadj rest) by (rewrite Egl in Hna; eapply noadj_app_r; eauto).
-    destruct (IH rest) as (r & Er & Qr & Wrr & Lr); auto; try lia.
-    rewrite Er. simpl. exists (p ++ r). split; [reflexivity|]. split; [|split].
+    destruct (IH rest) as (r & Er & Qr & Wrr & Lr & _); auto; try lia.
+    rewrite Er. simpl. exists (p ++ r). split; [reflexivity|]. split; [|split; [|split]].
     + rewrite Egl. apply eq_app; auto.
     + apply Forall_app; auto.
     + rewrite Egl, !app_length. rewrite app_length in Lp. lia.
+    + intros _ E. apply app_eq_nil in E. tauto.
 Qed.
 
 Theorem lvl2_spec (gl : list mitem) : Forall (wfn n) gl -> noadj gl ->
-  exists out, opt2 mat mmul mkron mid2 gl = Ok out /\ equiv n out gl /\ Forall (wfn n) out /\ length out <= length gl.
+  exists out, opt2 mat mmul mkron mid2 gl = Ok out /\ equiv n out gl /\ Forall (wfn n) out /\ length out <= length gl /\ (gl <> [] -> out <> []).
 Proof.
   intros Hwf Hna. unfold Optimizer.opt2.
   destruct (Nat.ltb 0 (count2 gl)).
